@@ -26,6 +26,7 @@ type verifProviderScn struct {
 	H      []string          `json:"H"`
 	Refuse []string          `json:"refuse"` // healthy when the request arrives, but their listener is closed
 	Strat  string            `json:"strat"`  // "plain" | "disc_all" (discovery strategy, fallback all, refresh on miss; unknown model)
+	Drop   []string          `json:"drop"`   // endpoints that re-list WITHOUT the shared model m1 after boot (through a recovery)
 }
 
 type verifProfileYAML struct {
@@ -145,6 +146,48 @@ func TestVerif_Provider(t *testing.T) {
 			}
 		}
 		stk.healthRound()
+		if len(sc.Drop) > 0 {
+			// the endpoints in Drop go away, come back and list only their exclusive model: what a provider's
+			// listing shows must follow
+			for _, be := range stk.backends {
+				if verifHas(sc.Drop, be.Name) {
+					modelsOf[be.Name] = modelsOf[be.Name][1:]
+					be.SetModelsOpenAI(modelsOf[be.Name])
+					be.HealthStatus.Store(503)
+				}
+			}
+			stk.healthRound()
+			for _, be := range stk.backends {
+				if verifHas(sc.Drop, be.Name) && verifHas(sc.H, be.Name) {
+					be.HealthStatus.Store(200)
+				}
+			}
+			stk.healthRound()
+			// re-discovery and the catalogue update are asynchronous: wait until olla knows the new listings
+			deadline := time.Now().Add(3 * time.Second)
+			for time.Now().Before(deadline) {
+				settled := true
+				if d, err := stk.mgr.GetRegistry().GetDiscovery(); err == nil {
+					if reg, err := d.GetRegistry(); err == nil {
+						for _, be := range stk.backends {
+							if verifHas(sc.Drop, be.Name) && verifHas(sc.H, be.Name) {
+								ms, _ := reg.GetModelsForEndpoint(context.Background(), be.URL())
+								for _, m := range ms {
+									if m.Name == "m1" {
+										settled = false
+									}
+								}
+							}
+						}
+					}
+				}
+				if settled {
+					break
+				}
+				time.Sleep(10 * time.Millisecond)
+			}
+			time.Sleep(100 * time.Millisecond) // the unified catalogue follows the base registry asynchronously
+		}
 		hObs := []string{}
 		for n, s := range stk.statuses() {
 			if s == "healthy" {
